@@ -11,7 +11,7 @@ import (
 // valid RE2 expression on its own are representable, and matching is decided
 // by an independent backtracking matcher over runes (whole-string semantics).
 type Re struct {
-	Op   string `json:"op"`             // lit, any, class, cat, alt, star, plus, opt, group, bol (^), eol ($), fold ((?i:…)), foldall ((?i)… — only as the root)
+	Op   string `json:"op"`             // lit, any, class, cat, alt, star, plus, opt, group, bol (^), eol ($), fold ((?i:…)), foldall ((?i)… — only as the root), perl (\d \w \s \D \W \S: Lit holds the letter), esc (one punctuation character written with a backslash: Lit)
 	Lit  string `json:"lit,omitempty"`  // lit: literal text (printed quoted); class: the member runes
 	Neg  bool   `json:"neg,omitempty"`  // class: negated
 	Subs []*Re  `json:"subs,omitempty"` // cat, alt: n; star, plus, opt, group: 1
@@ -78,12 +78,14 @@ func (r *Re) String() string {
 		suffix := map[string]string{"star": "*", "plus": "+", "opt": "?"}[r.Op]
 		// an atom is repeated as written (".*", "[ab]+", "x?": the forms people write, and the ones an
 		// implementation might special-case); anything else is wrapped in a non-capturing group
-		if sub := r.Subs[0]; sub.Op == "any" || sub.Op == "class" || sub.Op == "group" || (sub.Op == "lit" && len([]rune(sub.Lit)) == 1) {
+		if sub := r.Subs[0]; sub.Op == "any" || sub.Op == "class" || sub.Op == "group" || sub.Op == "perl" || sub.Op == "esc" || (sub.Op == "lit" && len([]rune(sub.Lit)) == 1) {
 			return sub.String() + suffix
 		}
 		return "(?:" + r.Subs[0].String() + ")" + suffix
 	case "group":
 		return "(" + r.Subs[0].String() + ")"
+	case "perl", "esc":
+		return "\\" + r.Lit
 	case "fold":
 		return "(?i:" + r.Subs[0].String() + ")"
 	case "foldall":
@@ -104,6 +106,33 @@ func sameFold(a, b rune) bool {
 		}
 	}
 	return false
+}
+
+// perlHas: the Perl classes of RE2 are ASCII-only: \d [0-9], \w [0-9A-Za-z_], \s [\t\n\f\r ]; upper case negates.
+// Under (?i) a class contains every character whose case-folding orbit meets it.
+func perlHas(letter string, c rune, fold bool) bool {
+	in := func(c rune) bool {
+		switch letter {
+		case "d", "D":
+			return c >= '0' && c <= '9'
+		case "w", "W":
+			return (c >= '0' && c <= '9') || (c >= 'a' && c <= 'z') || (c >= 'A' && c <= 'Z') || c == '_'
+		default:
+			return c == '\t' || c == '\n' || c == '\f' || c == '\r' || c == ' '
+		}
+	}
+	has := in(c)
+	if !has && fold {
+		for f := unicode.SimpleFold(c); f != c; f = unicode.SimpleFold(f) {
+			if in(f) {
+				has = true
+			}
+		}
+	}
+	if letter == "D" || letter == "W" || letter == "S" {
+		return !has
+	}
+	return has
 }
 
 func classHas(members string, c rune, fold bool) bool {
@@ -174,6 +203,21 @@ func (r *Re) ends(s []rune, from []bool, fold bool) []bool {
 	case "class":
 		for i, ok := range from {
 			if ok && i < len(s) && classHas(r.Lit, s[i], fold) != r.Neg {
+				out[i+1] = true
+			}
+		}
+		return out
+	case "esc":
+		c := []rune(r.Lit)[0]
+		for i, ok := range from {
+			if ok && i < len(s) && (s[i] == c || (fold && sameFold(s[i], c))) {
+				out[i+1] = true
+			}
+		}
+		return out
+	case "perl":
+		for i, ok := range from {
+			if ok && i < len(s) && perlHas(r.Lit, s[i], fold) {
 				out[i+1] = true
 			}
 		}
